@@ -156,8 +156,24 @@ def run_groups(pid, groups, tier, seed):
     quals = units_for(pid, reg)
     t0 = time.time()
     results = run_units(quals, tier)
-    results.sort(key=lambda r: r["unit"])
     base = load_baseline()
+    # Second chance before rule (b) fires: a unit whose code changed and that has baseline-proved clauses the solvers
+    # left open is run again with the long budget (a behaviour-preserving rewrite should not become an alarm just
+    # because an obligation got slower).  Only what is still open after that is reported.
+    if tier == "quick":
+        again = []
+        for r in results:
+            u = r["unit"]
+            if r.get("error") or not code_changes(base.get(u, {}).get("code"), r.get("code", {})):
+                continue
+            b = base.get(u, {}).get("clauses", {})
+            agg = aggregate(r["obligations"])
+            if any(o["status"] == "unknown" and b.get(n) == "proved" for n, o in agg.items()):
+                again.append(u)
+        if again:
+            redo = {r["unit"]: r for r in run_units(again, "thorough")}
+            results = [redo.get(r["unit"], r) for r in results]
+    results.sort(key=lambda r: r["unit"])
     violations, errors = [], []
     n_ob = n_dis = 0
     by_backend = {}
